@@ -364,6 +364,73 @@ def gen_cancel(rng):
     return case
 
 
+def gen_cancel_same_time(rng):
+    """C09 / C07 family: K >= 3 driver actions due at the SAME time (one origin, so one queue key and one
+    sequential group), a mix of model-input events and source (EventSource) events, keyed one-shot and
+    periodic, some of them cancelled before the step - the cancelled ones being first, second, third
+    or later in scheduling order."""
+    m = {"cap": rng.choice([1, 2, 16]), "handlers": [[], [], [], []], "outs": []}
+    case = {"models": [m], "sinks": [], "mode": "seq", "tags": {"cancel", "ss-oracle"}, "t0": 0, "clock": [],
+            "sources": [[("all", 0, ("m", 0, 0))], [("all", 1000, ("m", 0, 1))]]}
+    cmds, val, horizon = [], 0, 0
+    for _ in range(rng.randint(1, 3)):
+        t = horizon + 10 * rng.randint(1, 2)
+        slots = []
+        for k in range(rng.randint(3, 7)):
+            val += 1
+            slot = None
+            if rng.random() < 0.7:
+                free = [x for x in range(4) if x not in slots]
+                if free:
+                    slot = rng.choice(free); slots.append(slot)
+            per = rng.choice([None, None, None, 10])
+            if rng.random() < 0.55:
+                cmds.append(("ss", ("a", t), rng.randrange(2), val, slot, per))
+            else:
+                cmds.append(("se", ("a", t), 0, rng.choice([0, 1, 2, 3]), val, slot, per))
+        for sl in rng.sample(slots, min(len(slots), rng.randint(1, 3))):
+            cmds.append(("cn", sl))
+        if rng.random() < 0.5:
+            cmds.append(("st",))
+        else:
+            cmds.append(("su", ("a", t)))
+        horizon = t
+    cmds += [("su", ("a", horizon + 30))]
+    case["cmds"] = cmds
+    return case
+
+
+def gen_multi_origin(rng):
+    """C07 family: two origins have events pending for the SAME time and the same target: the global
+    scheduler (driver) and a model whose handler scheduled a burst to itself; each origin's events must
+    run in its own scheduling order (the order between the two origins is free: multiset mode)."""
+    d = 10
+    burst = [("sch", ("r", d), 0, ("ip", 100 * (k + 1)), None, None) for k in range(rng.randint(2, 4))]
+    m0 = {"cap": rng.choice([1, 2, 16]), "handlers": [[], burst, [], []], "outs": []}
+    m1 = {"cap": rng.choice([1, 2, 16]), "handlers": [[], [("sch", ("r", d), 0, ("ip", 100 * (k + 1)), None, None) for k in range(rng.randint(2, 4))], [], []], "outs": []}
+    case = {"models": [m0, m1], "sinks": [], "mode": "multiset", "tags": {"burst", "multi-origin"}, "t0": 0, "clock": []}
+    cmds, val = [], 0
+    # at time 10: the trigger handlers (input 1) of both models run and schedule their bursts for time 20
+    base = {}
+    for mi in rng.sample([0, 1], rng.randint(1, 2)):
+        val += 1
+        base[mi] = 5000 * (mi + 1) + val
+        cmds.append(("se", ("a", 10), mi, 1, base[mi], None, None))
+    # the driver schedules its own same-time events for time 20 (before and after stepping to 10)
+    for _ in range(rng.randint(1, 3)):
+        val += 1
+        cmds.append(("se", ("a", 20), rng.randrange(2), 0, val, None, None))
+    cmds.append(("su", ("a", 10)))
+    for _ in range(rng.randint(1, 3)):
+        val += 1
+        cmds.append(("se", ("a", 20), rng.randrange(2), 0, val, None, None))
+    cmds.append(rng.choice([("st",), ("su", ("a", 20)), ("su", ("a", 30))]))
+    cmds.append(("su", ("a", 40)))
+    case["cmds"] = cmds
+    case["meta"] = {"bases": base}
+    return case
+
+
 def gen_periodic(rng):
     """C10 family: several periodic series with commensurable periods down to 1 ns, coincidences,
     cancel points at fixed times; returns (setup commands, horizon, cancel list)."""
